@@ -287,13 +287,21 @@ class _First:
         return getattr(self.r, k)
 
 
-def scale_sources(r, which=None, small=False):
+class _Last(_First):
+    """... and when the largest size of every dimension is wanted"""
+    def choice(self, xs):
+        return xs[-1]
+
+
+def scale_sources(r, which=None, small=False, large=False):
     """sources that are ordinary in every respect but one, which is pushed past 2^8 or 2^16: number of variables, definitions,
     parameters, labels, nesting depth, call-chain depth, identifier length, statements on one line, arguments of one call,
     included files, include depth, slots / statements / arguments in a macro use.  -> list of (files, main, kind)"""
     out = []
     if small:
         r = _First(r)
+    elif large:
+        r = _Last(r)
 
     def add(kind, text, files=None):
         f = dict(files or {})
@@ -302,27 +310,30 @@ def scale_sources(r, which=None, small=False):
     n = r.choice([300, 1000, 4000])
     # (no +/- sugar in the very long sources: every rewrite costs a pass over the whole token stream)
     add("variables-%d" % n, " ;\n".join("v%d := %d" % (i, i % 7 + 1) for i in range(n)) + " ;\ns := v%d ;\nt := v0 ;\nv%d := s" % (n - 1, n // 2))
-    n = r.choice([260, 300])
-    add("locals-%d" % n, "PROGRAM f IN a DO\n" + " ;\n".join("w%d := a + %d" % (i, i % 5) for i in range(n)) + " ;\nx0 := w%d + 1\nEND\nx := RUN f WITH %d END ;\ny := RUN f WITH x END"
-        % (n - 1, r.randint(0, 3)))
-    n = r.choice([260, 300, 520])
-    defs = "\n".join("PROGRAM f%d IN a DO\nx0 := a + %d\nEND" % (i, i % 5) for i in range(n))
-    add("definitions-%d" % n, defs + "\n" + " ;\n".join("r%d := RUN f%d WITH %d END" % (i, i, i % 3) for i in [0, 1, 127, 128, 129, 255, 256, 257, n - 1]))
-    n = r.choice([130, 260, 300])
+    n = r.choice([260, 300, 1100])
+    sug = n < 500          # (beyond ~1000 uses the +/- sugar alone would exhaust the 1024 rewrites)
+    add("locals-%d" % n, "PROGRAM f IN a DO\n" + " ;\n".join(("w%d := a + %d" % (i, i % 5)) if sug else ("w%d := %s" % (i, "a" if i % 2 else str(i % 5))) for i in range(n))
+        + " ;\nx0 := w%d + 1\nEND\nx := RUN f WITH %d END ;\ny := RUN f WITH x END" % (n - 1, r.randint(0, 3)))
+    n = r.choice([260, 300, 520, 1100])
+    sug = n < 500
+    defs = "\n".join("PROGRAM f%d IN a DO\nx0 := %s\nEND" % (i, ("a + %d" % (i % 5)) if sug else ("a" if i % 2 else str(i % 5))) for i in range(n))
+    add("definitions-%d" % n, defs + "\n" + " ;\n".join("r%d := RUN f%d WITH %d END" % (i, i, i % 3 + 1) for i in [0, 1, 127, 128, 129, 255, 256, 257, n - 2, n - 1]))
+    n = r.choice([130, 260, 300, 1100])
+    sug = n < 500
     stop = r.random() < 0.5
     chain = ["PROGRAM f0 IN a DO\nx0 := a + 1%s\nEND" % (" ;\nSTOP" if stop else "")]
     for i in range(1, n):
-        chain.append("PROGRAM f%d IN a DO\nt := RUN f%d WITH a END ;\nx0 := t + 1\nEND" % (i, i - 1))
+        chain.append("PROGRAM f%d IN a DO\nt := RUN f%d WITH a END ;\nx0 := t%s\nEND" % (i, i - 1, " + 1" if sug else ""))
     add("call-chain-%d%s" % (n, "-stop" if stop else ""), "\n".join(chain) + "\nx := RUN f%d WITH %d END ;\ny := x" % (n - 1, r.randint(0, 2)))
-    n = r.choice([20, 40, 260])
+    n = r.choice([20, 40, 260, 1100])
     ps = ["p%d" % i for i in range(n)]
     add("parameters-%d" % n, "PROGRAM g IN %s OUT p%d DO\np%d := p%d + 3 ;\np%d := p%d + 1\nEND\n" % (" , ".join(ps), n - 1, n - 1, n - 2, n - 1, n - 1)
         + "x := RUN g WITH %s END" % " , ".join(str(i + 1) for i in range(n)))
-    n = r.choice([70, 150, 260])
+    n = r.choice([70, 150, 260, 1100])
     add("loop-nesting-%d" % n, "a := 1 ;\n" + "\n".join("LOOP a DO" for _ in range(n)) + "\nc := c + 1\n" + "\n".join("END" for _ in range(n)) + " ;\nd := c")
     add("while-nesting-%d" % n, "".join("a%d := 1 ;\n" % i for i in range(n)) + "\n".join("WHILE a%d != 0 DO" % i for i in range(n)) + "\nc := c + 1 ;\n"
-        + " ;\n".join("a%d := a%d - 1\nEND" % (i, i) for i in reversed(range(n))) + " ;\nd := c")
-    n = r.choice([260, 300, 1000])
+        + " ;\n".join(("a%d := a%d - 1\nEND" % (i, i)) if n < 500 else ("a%d := 0\nEND" % i) for i in reversed(range(n))) + " ;\nd := c")
+    n = r.choice([260, 300, 1000, 4200])
     order = list(range(n))
     r.shuffle(order)
     nxt = {order[j]: order[j + 1] for j in range(n - 1)}
@@ -333,16 +344,17 @@ def scale_sources(r, which=None, small=False):
     add("identifier-length-%d" % n, "PROGRAM f%s IN q%s DO\nx0 := q%s + 2\nEND\n%s := 3 ;\n%sb := %s + 1 ;\nz := RUN f%s WITH %sb END" % (nm, nm, nm, nm, nm, nm, nm, nm))
     n = r.choice([300, 5000])
     add("statements-on-one-line-%d" % n, " ; ".join("a%d := %d" % (i % 5, i % 7) for i in range(n)) + " ;\nb := a3")
-    n = r.choice([260, 300])
-    files = {"i%d" % i: "k := k + %d ;" % (i % 3) for i in range(n)}
-    add("included-files-%d" % n, "".join('include "i%d"\n' % i for i in range(n)) + "z := k", files)
-    n = r.choice([130, 260])
-    files = {"d%d" % i: 'k := k + 1 ;\ninclude "d%d"\nm := m + 1 ;' % (i + 1) for i in range(n)}
+    n = r.choice([260, 300, 1100])
+    files = {"i%d" % i: ("k := k + %d ;" % (i % 3)) if n < 500 else ("k%d := %d ;" % (i % 9, i % 7)) for i in range(n)}
+    add("included-files-%d" % n, "".join('include "i%d"\n' % i for i in range(n)) + "z := k" + ("" if n < 500 else "3"), files)
+    n = r.choice([130, 260, 1100])
+    files = {"d%d" % i: ('k := k + 1 ;\ninclude "d%d"\nm := m + 1 ;' % (i + 1)) if n < 500 else ('k%d := %d ;\ninclude "d%d"\nm%d := k%d ;' % (i % 9, i % 7, i + 1, i % 5, (i + 3) % 9))
+             for i in range(n)}
     files["d%d" % n] = "q := k ;"
     add("include-depth-%d" % n, 'include "d0"\nz := m', files)
     # macro uses of unusual size
     from . import macrosets as MS
-    n = r.choice([40, 260])
+    n = r.choice([40, 260, 1100])
     add("macro-call-arguments-%d" % n, "PROGRAM g IN %s DO x0 := p%d + 1 END\nDEFINE PRIO 30 <ID> ( <ARGS> ) AS RUN $0 WITH $1 END END DEFINE\nx := g ( %s )"
         % (" , ".join("p%d" % i for i in range(n)), n - 1, " , ".join(str(i + 2) for i in range(n))))
     n = r.choice([100, 300])
